@@ -380,6 +380,57 @@ def signature(w, r):
     return (r.get("k"),)
 
 
+def converter_repeat_case(chk, rng, i):
+    """Quotients of quantities of a type that converts through a table: the
+    same quotient evaluated three times (the property's "repeating an
+    operation returns an equal result" for operations that consult a
+    converter).  One direction tabulated only, so the reverse look-up is on
+    the path."""
+    f = rng.choice([F(5, 9), F(9, 5), F(3), F(1, 7), F(12), F(7, 2)])
+    o = rng.choice([F(0), F(32), F(-27315, 100), F(1, 3)])
+    x = F(rng.randint(1, 9999), rng.choice([1, 10, 100]))
+    y = F(rng.randint(1, 9999), rng.choice([1, 10, 100]))
+    fe = num(f, "int") if f.denominator == 1 and rng.random() < 0.5 \
+        else num(f)
+    steps = [{"cls": {"name": "Grade%d" % (i % 7), "kw": {}}, "id": "G"},
+             {"e": M(V("G"), "new_unit", ["s", "g0"])},
+             {"e": M(V("G"), "new_unit", ["s", "g1"])},
+             {"id": "tc", "e": ["c", ["g", "quantity:TableConverter"], [
+                 ["dict", [[["t", [U("g0"), U("g1")]],
+                            ["t", [fe, num(o)]]]]]]]},
+             {"e": M(V("G"), "register_converter", V("tc"))},
+             {"id": "a", "e": Q(num(x), "g0")},
+             {"id": "b", "e": Q(num(y), "g1")}]
+    for j in range(3):
+        steps.append({"k": "q%d" % j, "e": OP("/", V("a"), V("b"))})
+        steps.append({"k": "c%d" % j, "e": M(V("b"), "convert", U("g0"))})
+    yb = (y - o) / f            # b in g0
+
+    def judge(obs, rec, case):
+        if obs is None or "q0" not in obs:
+            chk.inconclusive_because("converter repeat case not observed")
+            return
+        chk.case(("converter repeat", i, str(f), str(o), str(x), str(y)))
+        chk.count("repeated operations through a converter")
+        bad = []
+        qs = [obs.get("q%d" % j, {}) for j in range(3)]
+        cs = [obs.get("c%d" % j, {}) for j in range(3)]
+        if yb != 0:
+            for j, q in enumerate(qs):
+                if q.get("k") != "N" or val(q) != x / yb:
+                    bad.append("evaluation %d of (%s g0) / (%s g1) gives %s, "
+                               "expected %s" % (j + 1, x, y, brief(q),
+                                                x / yb))
+        for j, c in enumerate(cs):
+            if c.get("k") != "Q" or val(c) != yb or c["u"] != "g0":
+                bad.append("conversion %d of %s g1 to g0 gives %s, expected "
+                           "%s" % (j + 1, y, brief(c), yb))
+        if bad:
+            chk.violation("; ".join(bad[:3]), dict(obs=obs, steps=steps),
+                          "history|repeat")
+    return Case(steps, judge, isolate=True)
+
+
 def run(chk, R, tier, seed):
     rng = random.Random("C17-%d" % seed)
     for c in ("operations evaluated before and after their result type "
@@ -417,3 +468,7 @@ def run(chk, R, tier, seed):
                                  schedules=[ref_s, s]),
                             "history|cross-process")
         done += m
+    chk.require("repeated operations through a converter")
+    run_cases(chk, R, [converter_repeat_case(chk, rng, i)
+                       for i in range(30 if tier == "quick" else 400)],
+              preload=("quantity",))
